@@ -17,6 +17,23 @@ Proof.
   - apply Nat.eqb_neq in E. apply Z.eqb_neq. lia.
 Qed.
 
+(* a way without updates looks the same at every time: LineStringAt is LineString
+   (a fast path some spellings of Group take) *)
+Lemma keep_annotated_points ns : keep_annotated ns (map node_point ns) = line_string ns.
+Proof.
+  unfold line_string. induction ns as [|n ns IH]; [reflexivity|].
+  cbn [map keep_annotated filter]. destruct (annotated n); cbn [map]; rewrite IH; reflexivity.
+Qed.
+
+Lemma way_line_string_at_no_updates w at_ :
+  (Z.of_nat (length (w_updates w)) =? 0) = true ->
+  way_line_string_at w at_ = Some (way_line_string w).
+Proof.
+  intro H. apply Z.eqb_eq in H. destruct (w_updates w) as [|u us] eqn:Eu; [|cbn in H; lia].
+  unfold way_line_string_at, way_line_string, line_string_at, line_string_at_gen. rewrite Eu.
+  cbn [lsat_loop]. rewrite keep_annotated_points. reflexivity.
+Qed.
+
 Theorem gen_group_ok ws ms at_ : gen_group ws ms at_ = group ms ws at_.
 Proof.
   unfold gen_group, group. cbv zeta.
@@ -37,9 +54,23 @@ Proof.
       2:{ rewrite IH, Hlen. reflexivity. }
       destruct (find_way (m_ref m) ws) as [w|].
       2:{ rewrite IH, Hlen. reflexivity. }
-      unfold way_line_string_at.
-      destruct (line_string_at at_ (w_nodes w) (w_updates w)) as [line|]; [|reflexivity].
-      rewrite Z_of_nat_eqb'.
+      (* the line of the way: LineStringAt, or LineString on the fast path for ways without
+         updates if the source has one *)
+      first
+        [ match goal with
+          | |- context [Z.of_nat (length (w_updates w)) =? 0] =>
+              let Eu := fresh "Eu" in
+              destruct (Z.of_nat (length (w_updates w)) =? 0) eqn:Eu;
+              [ let Hl := fresh "Hl" in
+                pose proof (way_line_string_at_no_updates w at_ Eu) as Hl;
+                unfold way_line_string_at in Hl; rewrite Hl; clear Hl;
+                generalize (way_line_string w); intro line
+              | unfold way_line_string_at;
+                destruct (line_string_at at_ (w_nodes w) (w_updates w)) as [line|]; [|reflexivity] ]
+          end
+        | unfold way_line_string_at;
+          destruct (line_string_at at_ (w_nodes w) (w_updates w)) as [line|]; [|reflexivity] ];
+      rewrite Z_of_nat_eqb';
       destruct (Nat.eqb (length line) (length (w_nodes w))); cbn [negb];
         (destruct line as [|p line];
          [cbn [length Z.of_nat Z.eqb]; rewrite IH, Hlen; reflexivity|];
